@@ -226,7 +226,23 @@ func (e *Engine) WriteReplayOverlay(dir string) (string, error) {
 	}
 	data, _ := json.MarshalIndent(map[string]interface{}{"Replace": repl}, "", " ")
 	ov := filepath.Join(dir, "overlay.json")
-	return ov, os.WriteFile(ov, data, 0o644)
+	if err := os.WriteFile(ov, data, 0o644); err != nil {
+		return "", err
+	}
+	// second overlay with the diode sources instrumented for schedule replay
+	inst, err := e.InstrumentDiode(filepath.Join(dir, "instr"))
+	if err == nil && len(inst) > 0 {
+		repl2 := map[string]string{}
+		for k, v := range repl {
+			repl2[k] = v
+		}
+		for k, v := range inst {
+			repl2[k] = v
+		}
+		data2, _ := json.MarshalIndent(map[string]interface{}{"Replace": repl2}, "", " ")
+		os.WriteFile(filepath.Join(dir, "overlay-sched.json"), data2, 0o644)
+	}
+	return ov, nil
 }
 
 func (e *Engine) allPkgs() []*packages.Package {
